@@ -174,13 +174,35 @@ func initBig() {
 	intrinsics["(*math/big.Int).String"] = func(in *Interp, fn *ssa.Function, a []Value) Value { return concreteStr("<big>") }
 	intrinsics["(*math/big.Int).Bytes"] = func(in *Interp, fn *ssa.Function, a []Value) Value {
 		x := bigOf(a[0])
-		if !x.IsConst() {
-			in.fail("Bytes() of symbolic big.Int (length fork not in prototype)")
+		if x.IsConst() {
+			b := new(big.Int).Abs(x.Val).Bytes()
+			out := make([]Value, len(b))
+			for i := range b {
+				out[i] = BVConstU(8, uint64(b[i]))
+			}
+			return Slice{A: out}
 		}
-		b := new(big.Int).Abs(x.Val).Bytes()
-		out := make([]Value, len(b))
-		for i := range b {
-			out[i] = BVConstU(8, uint64(b[i]))
+		// symbolic: |x| as n big-endian bytes, n = forked over the feasible byte lengths (bounded)
+		ax := Ite(IntCmp("<", x, IntConst(big.NewInt(0))), IntBin("-", IntConst(big.NewInt(0)), x), x)
+		const maxLen = 12
+		n := 0
+		for ; n <= maxLen; n++ {
+			lim := IntConst(new(big.Int).Lsh(big.NewInt(1), uint(8*n)))
+			if in.ctx.Branch(IntCmp("<", ax, lim)) {
+				break
+			}
+		}
+		if n > maxLen {
+			in.ctx.ex.BoundHits++
+			panic(abortPath{"big.Int.Bytes longer than the modelled bound"})
+		}
+		out := make([]Value, n)
+		if n > 0 {
+			bv := intToBV(8*n, ax)
+			for i := 0; i < n; i++ {
+				hi := 8*(n-i) - 1
+				out[i] = Extract(hi, hi-7, bv)
+			}
 		}
 		return Slice{A: out}
 	}
